@@ -22,8 +22,6 @@ theorem Seg.frame {f : Addr → Option Addr} {o l} (h : Seg f o l) (a : Addr) (b
 
 theorem Seg.head {f o l} (h : Seg f o l) : o = l.head? := by cases h <;> rfl
 
-theorem Seg.mem_lt {f o l} (h : Seg f o l) : True := trivial
-
 /-- new head -/
 theorem Seg.push {f : Addr → Option Addr} {o l} (h : Seg f o l) (a : Addr) (ha : a ∉ l) :
     Seg (upd f a o) (some a) (a :: l) := by
@@ -91,5 +89,71 @@ theorem Seg.unsnoc {f : Addr → Option Addr} {o l} (n : Addr) (h : Seg f o (l +
     · intro h0; cases h0
 
 
+theorem Seg.nil_of_none {f : Addr → Option Addr} {l} (h : Seg f none l) : l = [] := by cases h; rfl
+
+theorem Seg.last_eq {f : Addr → Option Addr} {o} {l : List Addr} (h : Seg f o l.reverse) : o = l.getLast? := by
+  rw [h.head, List.head?_reverse]
+
+/-- only the links of the visited nodes matter -/
+theorem Seg.congr {f g : Addr → Option Addr} {o l} (h : Seg f o l) (hfg : ∀ a ∈ l, g a = f a) : Seg g o l := by
+  induction h with
+  | nil => exact .nil
+  | cons x l _ ih =>
+    refine .cons x l ?_
+    rw [hfg x List.mem_cons_self]
+    exact ih (fun a ha => hfg a (List.mem_cons_of_mem _ ha))
+
+/-- the rest of a chain behind one of its nodes -/
+theorem Seg.drop {f : Addr → Option Addr} {o} {pre : List Addr} {a suf} (h : Seg f o (pre ++ a :: suf)) :
+    Seg f (f a) suf := by
+  induction pre generalizing o with
+  | nil => cases h with | cons _ _ h => exact h
+  | cons x pre ih => cases h with | cons _ _ h => exact ih h
+
+/-- cutting a chain behind one of its nodes -/
+theorem Seg.cut {f g : Addr → Option Addr} {o} {pre : List Addr} {a suf} (h : Seg f o (pre ++ a :: suf))
+    (hpre : ∀ x ∈ pre, g x = f x) (ha : g a = none) : Seg g o (pre ++ [a]) := by
+  induction pre generalizing o with
+  | nil =>
+    cases h with | cons _ _ h => exact .cons a [] (by rw [ha]; exact .nil)
+  | cons x pre ih =>
+    cases h with
+    | cons _ _ h =>
+      refine .cons x (pre ++ [a]) ?_
+      rw [hpre x List.mem_cons_self]
+      exact ih h (fun y hy => hpre y (List.mem_cons_of_mem _ hy))
+
+/-- the successor of an inner node is the next element of the list -/
+theorem Seg.next_some {f : Addr → Option Addr} {o} {pre : List Addr} {a b suf} (h : Seg f o (pre ++ a :: b :: suf)) :
+    f a = some b := by
+  have := h.drop.head; simpa using this
+
+theorem Seg.next_last {f : Addr → Option Addr} {o} {pre : List Addr} {a} (h : Seg f o (pre ++ [a])) :
+    f a = none := by
+  have := h.drop.head; simpa using this
+
+theorem nodup_reverse' {l : List Nat} (h : l.Nodup) : l.reverse.Nodup := by
+  unfold List.Nodup at *
+  rw [List.pairwise_reverse]
+  exact h.imp (fun h => h.symm)
+
+/-- pigeonhole: a duplicate-free list of addresses below `n` has at most `n` elements -/
+theorem nodup_bound : ∀ (n : Nat) (l : List Nat), l.Nodup → (∀ a ∈ l, a < n) → l.length ≤ n := by
+  intro n
+  induction n with
+  | zero => intro l _ h; cases l with
+    | nil => simp
+    | cons a t => exact absurd (h a List.mem_cons_self) (Nat.not_lt_zero _)
+  | succ n ih =>
+    intro l hnd h
+    have h1 : (l.erase n).Nodup := hnd.erase n
+    have h2 : ∀ a ∈ l.erase n, a < n := by
+      intro a ha
+      have := (hnd.mem_erase_iff).mp ha
+      have := h a this.2
+      omega
+    have := ih _ h1 h2
+    have h3 := List.length_erase (a := n) (l := l)
+    split at h3 <;> omega
 
 end FpgoVerif.C06
